@@ -1046,15 +1046,20 @@ DOMServices::isNodeAfter(
             const XalanNode&    node1,
             const XalanNode&    node2)
 {
-    assert(node1.getOwnerDocument() == node2.getOwnerDocument());
-    assert(node1.getNodeType() != XalanNode::DOCUMENT_NODE &&
-            node2.getNodeType() != XalanNode::DOCUMENT_NODE);
-
     if (node1.isIndexed() == true)
     {
         assert(node2.isIndexed() == true);
 
         return node1.getIndex() > node2.getIndex() ? true : false;
+    }
+    else if (node1.getNodeType() == XalanNode::DOCUMENT_NODE)
+    {
+        // The document node precedes every node of its document...
+        return false;
+    }
+    else if (node2.getNodeType() == XalanNode::DOCUMENT_NODE)
+    {
+        return true;
     }
     else
     {
